@@ -35,7 +35,7 @@ pub struct Hist {
     pub torn_files: u64,
 }
 
-fn apply_tamper(root: &std::path::Path, path: &str, kind: &TamperKind, at: u32) -> bool {
+pub fn apply_tamper(root: &std::path::Path, path: &str, kind: &TamperKind, at: u32) -> bool {
     let p = root.join(crate::tree::osp(path));
     if *kind == TamperKind::Remove {
         return std::fs::remove_file(&p).is_ok();
